@@ -264,9 +264,10 @@ class RepartitionDivisions(Repartition):
             """Whether last division only contains single label"""
             return len(x) >= 2 and x[-1] == x[-2]
 
-        c = [a[0]]
+        # with ``force`` the new divisions may start below the old ones
+        low = min(a[0], b[0])
+        c = [low]
         d = dict()
-        low = a[0]
 
         i, j = 1, 1  # indices for old/new divisions
         k = 0  # index for temp divisions
